@@ -198,6 +198,9 @@ class LetExpression(TypedExpression):
         if self.after and isinstance(self.after[0], Comment) and self.after[0].inline:
             if after_str and not after_str.startswith((" ", "\n")):
                 after_str = " " + after_str
+        elif after_str and not after_str.startswith("\n"):
+            # Own-line trailing trivia starts below the body, not on its last line.
+            after_str = "\n" + after_str
         if (
             self.after
             and self.after[-1] not in (linebreak, empty_line)
